@@ -1,9 +1,10 @@
 import RedisGoModel.Exec.StringKeys
+import RedisGoModel.Exec.ZSet
 /-! Command table and dispatch (`server.Manager.ExecCommand`: lower-cased command name, table lookup). -/
 namespace Exec
 open Resp (Reply Bytes)
 
-def cmdTable : List (String × Cmd) := stringKeyTable
+def cmdTable : List (String × Cmd) := stringKeyTable ++ zsetTable
 
 def lookupCmd (name : Bytes) : Option Cmd :=
   (cmdTable.find? fun p => ofStr p.1 == name).map (·.2)
